@@ -24,7 +24,8 @@ single points of failure and critical dependencies.
 How it works: Uses Tarjan's algorithm with DFS, tracking discovery times and
 low-links. A node is an articulation point if any subtree cannot reach back
 above it. An edge is a bridge if the subtree cannot reach the edge's source.
-Both run in O(V + E) time with a single DFS pass.
+Both run in O(V + E) time with a single DFS pass (explicit stack, so long
+chains do not hit Python's recursion limit).
 
 Use this for:
 
@@ -74,42 +75,48 @@ def articulation_points[S](
     low: dict[S, int] = {}
     parent: dict[S, S | None] = {}
     ap: set[S] = set()
-    time = [0]
+    time = 0
     iterations = 0
 
-    def dfs(v: S) -> None:
-        nonlocal iterations
+    # Explicit-stack DFS (one frame per node would exhaust the recursion limit on long chains)
+    for root in node_list:
+        if root in discovery:
+            continue
+        parent[root] = None
+        discovery[root] = low[root] = time
+        time += 1
         iterations += 1
+        root_children = 0
+        stack = [(root, iter(adj[root]))]
 
-        children = 0
-        discovery[v] = time[0]
-        low[v] = time[0]
-        time[0] += 1
+        while stack:
+            v, pending = stack[-1]
+            for w in pending:
+                if w not in discovery:
+                    parent[w] = v
+                    discovery[w] = low[w] = time
+                    time += 1
+                    iterations += 1
+                    stack.append((w, iter(adj[w])))
+                    break
+                elif w != parent[v]:
+                    low[v] = min(low[v], discovery[w])
+            else:
+                # v is finished: hand its low-link to its DFS parent u
+                stack.pop()
+                if stack:
+                    u = stack[-1][0]
+                    low[u] = min(low[u], low[v])
 
-        for w in adj[v]:
-            if w not in discovery:
-                children += 1
-                parent[w] = v
-                dfs(w)
-                low[v] = min(low[v], low[w])
-
-                # v is an articulation point if:
-                # 1. v is root and has 2+ children, OR
-                # 2. v is not root and low[w] >= discovery[v]
-                if parent[v] is None:
-                    if children >= 2:
-                        ap.add(v)
-                elif low[w] >= discovery[v]:
-                    ap.add(v)
-
-            elif w != parent[v]:
-                low[v] = min(low[v], discovery[w])
-
-    # Handle disconnected components
-    for v in node_list:
-        if v not in discovery:
-            parent[v] = None
-            dfs(v)
+                    # u is an articulation point if:
+                    # 1. u is root and has 2+ children, OR
+                    # 2. u is not root and low[v] >= discovery[u]
+                    if parent[u] is None:
+                        root_children += 1
+                        if root_children >= 2:
+                            ap.add(u)
+                    elif low[v] >= discovery[u]:
+                        ap.add(u)
 
     return Result(ap, len(ap), iterations, n)
 
@@ -141,36 +148,42 @@ def bridges[S](
     low: dict[S, int] = {}
     parent: dict[S, S | None] = {}
     bridge_list: list[tuple[S, S]] = []
-    time = [0]
+    time = 0
     iterations = 0
 
-    def dfs(v: S) -> None:
-        nonlocal iterations
+    # Explicit-stack DFS (one frame per node would exhaust the recursion limit on long chains)
+    for root in node_list:
+        if root in discovery:
+            continue
+        parent[root] = None
+        discovery[root] = low[root] = time
+        time += 1
         iterations += 1
+        stack = [(root, iter(adj[root]))]
 
-        discovery[v] = time[0]
-        low[v] = time[0]
-        time[0] += 1
+        while stack:
+            v, pending = stack[-1]
+            for w in pending:
+                if w not in discovery:
+                    parent[w] = v
+                    discovery[w] = low[w] = time
+                    time += 1
+                    iterations += 1
+                    stack.append((w, iter(adj[w])))
+                    break
+                elif w != parent[v]:
+                    low[v] = min(low[v], discovery[w])
+            else:
+                # v is finished: hand its low-link to its DFS parent u
+                stack.pop()
+                if stack:
+                    u = stack[-1][0]
+                    low[u] = min(low[u], low[v])
 
-        for w in adj[v]:
-            if w not in discovery:
-                parent[w] = v
-                dfs(w)
-                low[v] = min(low[v], low[w])
-
-                # Edge (v, w) is a bridge if low[w] > discovery[v]
-                if low[w] > discovery[v]:
-                    # Canonical ordering for consistent results
-                    edge = (v, w) if v < w else (w, v)  # type: ignore[operator]
-                    bridge_list.append(edge)
-
-            elif w != parent[v]:
-                low[v] = min(low[v], discovery[w])
-
-    # Handle disconnected components
-    for v in node_list:
-        if v not in discovery:
-            parent[v] = None
-            dfs(v)
+                    # Edge (u, v) is a bridge if low[v] > discovery[u]
+                    if low[v] > discovery[u]:
+                        # Canonical ordering for consistent results
+                        edge = (u, v) if u < v else (v, u)  # type: ignore[operator]
+                        bridge_list.append(edge)
 
     return Result(bridge_list, len(bridge_list), iterations, n)
